@@ -357,6 +357,161 @@ def big_fields(ctx):
             del pools, snaps
 
 
+def rerun_histories(ctx):
+    """histories run / the world changes / the program is used again.  A result that has been produced stays what it is however the world has moved on since:
+    the table (CSV) or dataset (NetCDF) behind a reader replaced from outside - other numbers, more or fewer rows, other missing cells, other column order,
+    removed, no table any more - or overwritten by the model's own EEMSWrite, or the source behind a plug-in reader holding something else; then run() again,
+    a further consumer added (and run), every result read again.  After every such step every result of the first run - read through the program - has the
+    shape, element type, missing cells and values it had, and so does the array that was handed out then"""
+    import contextlib, io, os
+    from collections import OrderedDict
+    from . import c18
+    from mpilot.program import Program, EEMS_CSV_LIBRARIES, EEMS_NETCDF_LIBRARIES
+    from mpilot.exceptions import MPilotError
+    rng = ctx.rng
+    tmp = common.tmpdir("mpv_c09h_")
+    lib = eems.arrays_lib()
+    quarters = [x / 4.0 for x in range(-8, 17)]
+
+    def table(path, rows, order=("x", "y"), missing=1):
+        cols = {"x": [rng.choice(quarters) for _ in range(rows)], "y": [rng.choice(quarters[8:]) for _ in range(rows)]}
+        for k in rng.sample(range(rows), min(missing, rows)):
+            cols["x"][k] = -9
+        with open(path, "w") as f:
+            f.write(",".join(order) + "\n" + "".join(",".join(repr(cols[c][i]) for c in order) + "\n" for i in range(rows)))
+        return open(path).read()
+
+    def dataset(path, shape, missing=1):
+        n = int(numpy.prod(shape))
+        mask = numpy.zeros(n, dtype=bool)
+        mask[rng.sample(range(n), min(missing, n))] = True
+        arr = numpy.ma.array(numpy.array([rng.choice(quarters) for _ in range(n)]).reshape(shape), mask=mask.reshape(shape))
+        c18.make_var_file(path, shape, arr, fill=-9999.0)
+        return "variable v%r = %r" % (shape, arr.tolist())
+
+    middles = {"csv": ['S = Sum(InFieldNames = [A, B])', 'D = AMinusB(A = A, B = B)', 'M = Maximum(InFieldNames = [A])', 'F = CvtToFuzzy(InFieldName = A, TrueThreshold = 4, FalseThreshold = -2)',
+                       'O = FuzzyOr(InFieldNames = [F])', 'G = FuzzyNot(InFieldName = F)', 'N = Normalize(InFieldName = B)', 'P = Multiply(InFieldNames = [A, B, A])', 'K = Copy(InFieldName = A)'],
+               "netcdf": ['S = Sum(InFieldNames = [A, A])', 'M = Minimum(InFieldNames = [A])', 'F = CvtToFuzzy(InFieldName = A, TrueThreshold = 4, FalseThreshold = -2)', 'O = FuzzyAnd(InFieldNames = [F])',
+                          'K = Copy(InFieldName = A)', 'Q = Mean(InFieldNames = [A, K])'],
+               "plugin": ['S = Sum(InFieldNames = [A, B])', 'M = Maximum(InFieldNames = [A])', 'F = CvtToFuzzy(InFieldName = A, TrueThreshold = 4, FalseThreshold = -2)', 'O = FuzzyOr(InFieldNames = [F])',
+                          'K = Copy(InFieldName = B)', 'X = Multiply(InFieldNames = [B])']}
+    changes = {"csv": ["other numbers", "more rows", "fewer rows", "other missing cells", "columns in another order", "removed", "no table any more", "overwritten by the model's own EEMSWrite", "nothing"],
+               "netcdf": ["other numbers", "another shape", "other missing cells", "removed", "no dataset any more", "overwritten by the model's own EEMSWrite", "nothing"],
+               "plugin": ["other numbers", "another shape", "other missing cells", "nothing"]}
+    histories = ["run()", "a consumer added, run()", "every result read", "run(), run()", "a consumer added and its result read"]
+    plan = [(kind, ch, histories[(i + j) % len(histories)]) for kind in ("csv", "netcdf", "plugin") for i, ch in enumerate(changes[kind]) for j in range(2 if kind == "csv" else 1)]
+    plan += [(kind, rng.choice(changes[kind]), rng.choice(histories)) for kind in ("csv", "csv", "netcdf", "plugin") for _ in range(ctx.budget(3, 150))]
+    for i, (kind, change, history) in enumerate(plan):
+        wd = os.path.join(tmp, "h%d" % i)
+        os.mkdir(wd)
+        own = change.startswith("overwritten")
+        shape = (rng.randrange(3, 9),) if kind == "csv" else rng.choice([(4,), (2, 3), (3, 2), (2, 2, 2)])
+        mids = rng.sample(middles[kind], rng.randrange(1, 4))
+        for user, needed in (("O =", "F ="), ("G =", "F ="), ("Q =", "K =")):          # (what a chosen line consumes is part of the model)
+            if any(m.startswith(user) for m in mids) and not any(m.startswith(needed) for m in mids):
+                mids = [m for m in middles[kind] if m.startswith(needed)] + mids
+        mids.sort(key=lambda m: m.startswith(("O =", "G =", "Q =")))
+        world = {}
+        if kind == "csv":
+            world["t.csv"] = table(os.path.join(wd, "t.csv"), shape[0])
+            lines = ['A = EEMSRead(InFileName = "t.csv", InFieldName = x%s)' % rng.choice(["", ", MissingVal = -9", ", MissingVal = -9, DataType = Float"]), 'B = EEMSRead(InFileName = "t.csv", InFieldName = y)'] + mids
+            if own:
+                lines += ['x = Sum(InFieldNames = [A, A])', 'y = Copy(InFieldName = B)', 'W = EEMSWrite(OutFileName = "t.csv", OutFieldNames = [x, y])']
+            libs = EEMS_CSV_LIBRARIES
+        elif kind == "netcdf":
+            world["v.nc"] = dataset(os.path.join(wd, "v.nc"), shape)
+            lines = ['A = EEMSRead(InFileName = "v.nc", InFieldName = v%s)' % rng.choice(["", ", MissingValue = 0.5", ", DataType = Float"])] + mids
+            if own:
+                c18.make_template(os.path.join(wd, "tpl.nc"), shape, rng)
+                lines += ['v = Sum(InFieldNames = [A, A])', 'W = EEMSWrite(OutFileName = "v.nc", OutFieldNames = [v], DimensionFileName = "tpl.nc", DimensionFieldName = elev)']
+            libs = EEMS_NETCDF_LIBRARIES
+        else:
+            held = dict((nm, eems.rand_array(rng, shape, float, None, rng.choice(["none", "one", "some"]))) for nm in ("A", "B"))
+            lib.HOLD.clear()
+            lib.HOLD.update(held)
+            world["source behind HeldData"] = dict((nm, repr(a.tolist())) for nm, a in held.items())
+            lines = ['A = HeldData()', 'B = HeldData()'] + mids
+            libs = ("mpilot.libraries.eems.basic", "mpilot.libraries.eems.fuzzy", eems.ARRLIB)
+        if rng.random() < 0.5:
+            rng.shuffle(lines)
+        src = "\n".join(lines) + "\n"
+        desc = {"source": src, "libraries": list(libs), "world_at_first_run": world, "then": []}
+        ctx.case("rerun %s %s %s %s" % (kind, change, history, src) + repr(world), sample=None)
+        ctx.count("c09_rerun_histories")
+        ctx.count("c09_rerun_change:" + change)
+        try:
+            with numpy.errstate(all="ignore"), contextlib.redirect_stdout(io.StringIO()):
+                p = Program.from_source(src, libraries=libs, working_dir=wd)
+                p.run()
+        except Exception as e:          # a generated model the code refuses is no history of this kind
+            ctx.count("c09_rerun_first_run_failed:" + type(e).__name__)
+            continue
+        handed = dict((nm, c._result) for nm, c in p.commands.items() if c.is_finished and isinstance(c._result, numpy.ndarray))
+        snaps = dict((nm, snapshot(a)) for nm, a in handed.items())
+        # -- the world moves on
+        if kind == "csv" and not own and change != "nothing":
+            path = os.path.join(wd, "t.csv")
+            if change == "removed":
+                os.remove(path)
+            elif change == "no table any more":
+                open(path, "w").write("\x00\x01 this is no table\n\n,,\n")
+            else:
+                rows = shape[0] + (rng.randrange(1, 4) if change == "more rows" else -rng.randrange(1, 3) if change == "fewer rows" else 0)
+                desc["world_afterwards"] = table(path, rows, ("y", "x") if change.startswith("columns") else ("x", "y"), 2 if change == "other missing cells" else 1)
+        elif kind == "netcdf" and not own and change != "nothing":
+            path = os.path.join(wd, "v.nc")
+            os.remove(path)
+            if change == "no dataset any more":
+                open(path, "w").write("this is no dataset\n")
+            elif change != "removed":
+                sh2 = shape if change != "another shape" else rng.choice([s_ for s_ in [(4,), (2, 3), (3, 2), (5,), (2, 2, 2), (2, 2)] if s_ != shape])
+                desc["world_afterwards"] = dataset(path, sh2, 2 if change == "other missing cells" else 1)
+        elif kind == "plugin" and change != "nothing":
+            sh2 = shape if change != "another shape" else tuple(n + 1 for n in shape)
+            for nm in ("A", "B"):
+                lib.HOLD[nm] = eems.rand_array(rng, sh2, float, None, "some" if change == "other missing cells" else "one")
+            desc["world_afterwards"] = dict((nm, repr(lib.HOLD[nm].tolist())) for nm in ("A", "B"))
+        desc["then"].append("the %s: %s" % ({"csv": "table t.csv", "netcdf": "dataset v.nc", "plugin": "source behind HeldData"}[kind], change))
+        # -- the program is used again
+        steps = []
+        target = rng.choice(sorted(snaps))
+
+        def add(name):
+            p.add_command(p.find_command_class("Copy"), name, OrderedDict([("InFieldName", target)]))
+        for part in history.split(", "):
+            if part == "run()":
+                steps.append(("program.run()", p.run))
+            elif part == "a consumer added":
+                steps.append(("program.add_command(Copy, 'Late', {'InFieldName': %r})" % target, lambda: add("Late")))
+            elif part == "every result read":
+                steps.append(("every result read", lambda: [c.result for c in p.commands.values()]))
+            else:
+                steps.append(("program.add_command(Copy, 'Late', {'InFieldName': %r}); program.commands['Late'].result" % target, lambda: (add("Late"), p.commands["Late"].result)))
+        bad = None
+        for text, step in steps:
+            try:
+                with numpy.errstate(all="ignore"), contextlib.redirect_stdout(io.StringIO()):
+                    step()
+                desc["then"].append(text)
+            except MPilotError as e:        # (a run() that finds its file gone may refuse; what has been produced is what is judged)
+                desc["then"].append("%s   -> %s" % (text, type(e).__name__))
+            for nm in sorted(snaps):
+                try:
+                    with numpy.errstate(all="ignore"), contextlib.redirect_stdout(io.StringIO()):
+                        now = p.commands[nm].result
+                except Exception as e:
+                    bad = "the result %s, produced by the first run, can no longer be read (%s)" % (nm, type(e).__name__)
+                    break
+                d = changed(snaps[nm], now) or changed(snaps[nm], handed[nm])
+                if d:
+                    bad = "the result %s, produced by the first run, changed: %s (%r -> %r)" % (nm, d, snaps[nm][4].tolist(), numpy.ma.getdata(now).tolist() if isinstance(now, numpy.ndarray) else now)
+                    break
+            if bad:
+                ctx.fail("a %s model was run; then %s; then %s: %s" % (kind, desc["then"][0], text, bad), desc)
+                break
+    lib.HOLD.clear()
+
+
 def run(ctx):
     ctx.check_proofs(["MPilot.Props.C09", "MPilot.Props.C09Hist"])
     model = common.Model()
@@ -386,6 +541,7 @@ def run(ctx):
     writers(ctx, ctx.budget(40, 1500))
     overshoot_chains(ctx)
     nonfinite_programs(ctx, ctx.budget(40, 1500))
+    rerun_histories(ctx)
     big_fields(ctx)
     return ctx.finish(
         rule="(a) every data command incl. single-input forms of n-ary operators: inputs compared before/after one execute; "
